@@ -15,8 +15,7 @@ ORACLE = {'name': 'normal_form_family'}
 
 def registered_rules(ck):
     """the binary-rule registry computed by executing the real AbstractBinaryRule.__init_subclass__ for every
-    subclass in the class table (definition order within a module, modules in name order: the ORDER is irrelevant to
-    every obligation, which only uses membership)"""
+    subclass in the class table (in the import order Python follows: `import furax` first, then the remaining modules alphabetically)"""
     from pyvc.interp import Interp
     from pyvc.run import Run
     P = ck.P
@@ -28,7 +27,11 @@ def registered_rules(ck):
     reg = I.module_global(P.modules['furax._base.rules'], 'BINARY_RULE_REGISTRY')
     hook = base.methods['__init_subclass__']
     names = []
-    for ci in P.classes.values():
+    from props.C08 import import_order
+    for ev in import_order(P):                  # classes are created in import order (furax/__init__ first)
+        if ev[0] != 'class':
+            continue
+        ci = ev[1]
         if ci is base or base not in ci.mro:
             continue
         I.call_funcinfo(hook, [ClassRef(ci)], {})
@@ -86,6 +89,45 @@ def build(ck):
         out = S.call(S.I.getattr(rule, 'apply'), [left, right])
         S.oblige('post', out.normal, tag=f'{ci.name}:{"inverse-left" if side == 0 else "inverse-right"}:apply-succeeds')
     ck.explore(f'{RULES}.InverseBinaryRule.check', inverse_pattern, T, axioms=axioms, label='pattern')
+
+    # an operator next to its own lazy inverse must VANISH: no rule tried before InverseBinaryRule may accept such a pair
+    # (the scan applies the first applicable rule in registration order)
+    op_classes = [c for c in P.subclasses(P.cls('AbstractLinearOperator'), concrete_only=True)]
+    earlier = reg[:reg.index('InverseBinaryRule')] if 'InverseBinaryRule' in reg else list(reg)
+
+    def inverse_priority(S):
+        S.oracle = ORACLE
+        S.oblige('post', 'InverseBinaryRule' in reg, tag='InverseBinaryRule-is-registered')
+        if not earlier:
+            return
+        rname = earlier[S.choose(len(earlier))]
+        ci = lazy_classes[S.choose(len(lazy_classes))]
+        xc = op_classes[S.choose(len(op_classes))]
+        side = S.choose(2)
+        # only well-typed pairs: the lazy-inverse class must be able to wrap an operator of class xc
+        ann = [f.annotation for f in ci.all_fields() if f.name == 'operator']
+        want = ann[-1].strip("'\"") if ann else 'AbstractLinearOperator'
+        try:
+            wcls = P.cls(want.split('|')[0].strip())
+        except KeyError:
+            wcls = P.cls('AbstractLinearOperator')
+        if wcls not in xc.mro:
+            return
+        if ci.name == 'AbstractLazyInverseOrthogonalOperator':
+            from props.C08 import resolved, same_function
+            if not same_function(resolved(xc, 'inverse'), resolved(xc, 'transpose')):
+                return          # X.I is this class only for orthogonal-decorated X
+        if ci.name == 'DiagonalInverseOperator' and P.cls('DiagonalOperator') not in xc.mro:
+            return
+        X = S.new(xc.name)
+        inv = S.new(ci.name, operator=X)
+        left, right = (inv, X) if side == 0 else (X, inv)
+        rule = Obj(P.cls(rname))
+        chk = S.call(S.I.getattr(rule, 'check'), [left, right])
+        S.oblige('post', chk.raised('NoReduction'),
+                 tag=f'{rname}-registered-before-InverseBinaryRule-declines-({ci.name} of a {xc.name}, that operator)'
+                     if side == 0 else f'{rname}-registered-before-InverseBinaryRule-declines-(a {xc.name}, its {ci.name})')
+    ck.explore(f'{RULES}.InverseBinaryRule.check', inverse_priority, T, axioms=axioms, label='priority')
 
     # adjacent block operators with the same layout (scenario of C01: check accepts, apply succeeds, product kept)
     from props import C01
